@@ -15,6 +15,12 @@ package props
 //     amounts are refused (only canonical decimal amounts are judged by the transfer rule), per-account
 //     debit / credit amounts (only the sum), or that a lock cannot exceed the balance.
 //
+// Account universe: a0..a3 (genesis-funded ring addresses) and "fresh"; one sequence in five adds
+// accounts whose name contains the key separator '_' and has another account's name as its prefix up
+// to a separator (genC19Universe). The oracle is the same for them: it reads back EVERY stored
+// record, so an unlock that lands on the account named by a truncated key shows up as a change of
+// locked amounts the step executed no lock / unlock for (or as a negative locked amount).
+//
 // Scope left out: the real tdpos kernel methods (they keep their nominate / vote tables in ledger
 // snapshots of confirmed blocks and check the tip height, so they cannot run over the in-memory
 // state); the tdpos lock type is reached through a forwarder registered under "$tdpos" instead.
@@ -68,7 +74,8 @@ const (
 // witnesses at the top of TestC19 when the witness still violates on the tree under test).
 var c19Exclude = map[string]bool{}
 
-// c19Names are the accounts of a sequence: four funded at Init and one never seen before.
+// c19Names are the accounts of a sequence's base universe: four funded at Init and one never seen
+// before. Further names resolve through c19Addr: "ca" (a contract account) and "<name>_<rest>".
 var c19Names = []string{"a0", "a1", "a2", "a3", "fresh"}
 
 func c19Addr(name string) string {
@@ -306,6 +313,7 @@ type c19Machine struct {
 	funded   []string // the genesis-funded accounts of the universe
 	unfunded []string // the others: they get their first tokens by a transfer
 	wide     bool     // the universe has accounts with the key separator in their name
+	related  []string // wide only: those accounts and the accounts their names are in prefix relation with
 
 	// facts for labels / the non-trivial rule
 	labels       map[string]bool
@@ -784,6 +792,12 @@ func (m *c19Machine) apply(op c19Op) error {
 		if ok && canonical && x.Sign() == 0 {
 			m.label("transfer-zero-ok")
 		}
+		if ok && c19HasSep(to) && by != to {
+			m.label("transfer-to-separator-name-ok")
+		}
+		if ok && c19HasSep(by) && by != to && canonical && x.Sign() > 0 {
+			m.label("transfer-from-separator-name-ok")
+		}
 		if !ok {
 			switch {
 			case !canonical:
@@ -827,6 +841,9 @@ func (m *c19Machine) apply(op c19Op) error {
 			}
 			if d.Sign() > 0 {
 				m.lockedEver[by] = true
+				if c19HasSep(by) {
+					m.label("lock-by-separator-name-ok")
+				}
 			}
 			m.label("propose-ok")
 		case "vote":
@@ -845,6 +862,9 @@ func (m *c19Machine) apply(op c19Op) error {
 			if d.Sign() > 0 {
 				m.lockedEver[by] = true
 				m.label("vote-ok")
+				if c19HasSep(by) {
+					m.label("lock-by-separator-name-ok")
+				}
 			} else {
 				m.label("vote-zero-ok")
 			}
@@ -858,6 +878,20 @@ func (m *c19Machine) apply(op c19Op) error {
 			m.label("thaw-ok")
 		case "tick":
 			for _, p := range released {
+				// the input class in which a key lock_<id>_<account> could be taken for another account's:
+				// a locker whose name contains the separator, released while an account named by a prefix
+				// of that name (up to a separator) holds an ordinary lock of its own
+				for _, a := range p.Lockers {
+					if p.Locks[a] == nil || p.Locks[a].Sign() <= 0 || !c19HasSep(a) {
+						continue
+					}
+					m.label("release-with-separator-name-locker")
+					for _, pa := range c19SepPrefixes(a) {
+						if pre[pa].locked(c19Ordinary).Sign() > 0 {
+							m.label("release-with-separator-name-locker-while-prefix-account-locked")
+						}
+					}
+				}
 				p.Done = true
 				p.Locks = map[string]*big.Int{}
 				if p.Status == putils.ProposalStatusRejected {
@@ -1021,6 +1055,19 @@ func (m *c19Machine) c19NamesWhere(pred func(b *c19Bal) bool) []string {
 
 // c19PickBy picks the initiator: mostly one for which the operation is interesting, sometimes anybody.
 func c19PickBy(rt *rapid.T, m *c19Machine, pred func(b *c19Bal) bool, bias int) string {
+	if m.wide {
+		// widened universe: half of the time one of the accounts in prefix relation, so that both the
+		// account with the separator in its name and the account named by its prefix lock, vote, transfer
+		var pref []string
+		for _, n := range m.related {
+			if pred(m.bal[c19Addr(n)]) {
+				pref = append(pref, n)
+			}
+		}
+		if len(pref) > 0 && rapid.IntRange(0, 9).Draw(rt, "byrelated") < 5 {
+			return c19Pick(rt, "byrelatedpref", pref)
+		}
+	}
 	if pref := m.c19NamesWhere(pred); len(pref) > 0 && rapid.IntRange(0, 9).Draw(rt, "bybias") < bias {
 		return c19Pick(rt, "bypref", pref)
 	}
@@ -1039,6 +1086,118 @@ func c19Need(supply *big.Int, p *c19Prop) *big.Int {
 
 func c19AvailOrd(b *c19Bal) *big.Int {
 	return new(big.Int).Sub(b.total(), b.locked(c19Ordinary))
+}
+
+// genC19Universe draws the account universe of a sequence. Four in five sequences keep the base
+// universe (c19Names). One in five is widened with accounts whose NAME contains the separator '_' the
+// contracts build their keys with (balanceOf_<account>, lock_<proposal>_<account>) and that stand in
+// prefix relation with another account of the universe: <base>_<suffix> next to <base> (the contract
+// account XC1111111111111111@my_chain next to XC1111111111111111@my; <address>_team next to
+// <address>; an empty suffix), optionally a second one: nested (<base>_<suffix>_<suffix2>, whose
+// prefixes <base> and <base>_<suffix> are both accounts), a sibling (<base>_<other suffix>) or the
+// same suffix on another base. Account names are opaque strings to $govern_token / $proposal: the
+// initiator and the receiver of a transfer are used as given. The related accounts are listed first
+// and twice in the pick list, so that they meet each other within 30 steps.
+func genC19Universe(rt *rapid.T, m *c19Machine) {
+	if rapid.IntRange(0, 4).Draw(rt, "universe") != 4 {
+		return
+	}
+	bases := []string{"a1", "ca", "a2", "fresh", "a3", "a0"}
+	suffixes := []string{"team", "chain", "x", ""}
+	base := c19Pick(rt, "sepbase", bases)
+	sfx := c19Pick(rt, "sepsuffix", suffixes)
+	related := []string{base, base + "_" + sfx}
+	switch rapid.IntRange(0, 3).Draw(rt, "sepsecond") {
+	case 1: // nested
+		related = append(related, base+"_"+sfx+"_"+c19Pick(rt, "sepsuffix2", []string{"2", "team", ""}))
+	case 2: // sibling
+		if s2 := c19Pick(rt, "sepsuffix2", suffixes); s2 != sfx {
+			related = append(related, base+"_"+s2)
+		}
+	case 3: // the same suffix on another base
+		if b2 := c19Pick(rt, "sepbase2", bases); b2 != base {
+			related = append(related, b2, b2+"_"+sfx)
+		}
+	}
+	var names []string
+	add := func(n string) {
+		for _, x := range names {
+			if x == n {
+				return
+			}
+		}
+		names = append(names, n)
+	}
+	for _, n := range related {
+		add(n)
+	}
+	nrel := len(names)
+	for _, n := range c19Names {
+		add(n)
+	}
+	m.funded, m.unfunded = nil, nil
+	for _, n := range names {
+		isFunded := false
+		for _, f := range c19Names[:c19Funded] {
+			isFunded = isFunded || f == n
+		}
+		if isFunded {
+			m.funded = append(m.funded, n)
+		} else {
+			m.unfunded = append(m.unfunded, n)
+		}
+	}
+	m.names = append(names, names[:nrel]...)
+	m.related = names[:nrel]
+	m.wide = true
+	m.label("universe-with-separator-names")
+}
+
+// genC19WideBias (widened universe only) steers a share of the steps so that the accounts with a
+// separator in their name take part in the whole life of a lock within 30 steps: they start without
+// tokens, so (a) fund one that has none from the richest genesis account; (b) while such an account
+// has tokens locked for a proposal that can still be released, advance the height towards the
+// proposal's CheckVoteResult / Trigger. Everything else (who proposes, votes, transfers, with what
+// amounts) stays with the common generator.
+func genC19WideBias(rt *rapid.T, m *c19Machine) (c19Op, bool) {
+	switch rapid.IntRange(0, 9).Draw(rt, "widebias") {
+	case 0, 1: // (a)
+		var poor []string
+		for _, n := range m.related {
+			if c19HasSep(c19Addr(n)) && m.bal[c19Addr(n)].total().Sign() == 0 {
+				poor = append(poor, n)
+			}
+		}
+		if len(poor) == 0 {
+			return c19Op{}, false
+		}
+		from, fromAv := "", new(big.Int)
+		for _, n := range m.funded {
+			if av := m.bal[c19Addr(n)].avail(); av.Cmp(fromAv) > 0 {
+				from, fromAv = n, av
+			}
+		}
+		if from == "" {
+			return c19Op{}, false
+		}
+		amt := big.NewInt(int64(rapid.IntRange(1, 3000).Draw(rt, "fundamount")))
+		if amt.Cmp(fromAv) > 0 {
+			amt = fromAv
+		}
+		return c19Op{Op: "transfer", By: from, To: c19Pick(rt, "fundto", poor), Amount: amt.String(), Note: "fund"}, true
+	case 2, 3, 4: // (b)
+		for _, p := range m.props {
+			if p.Done || (p.Stop <= m.height && p.Trig <= m.height) {
+				continue
+			}
+			for _, a := range p.Lockers {
+				if c19HasSep(a) && p.Locks[a] != nil && p.Locks[a].Sign() > 0 {
+					return c19Op{Op: "tick", Note: "towards-release"}, true
+				}
+			}
+		}
+	}
+	return c19Op{}, false
 }
 
 // genC19Op draws the next operation from the machine's observed state. (rapid favours small draws,
@@ -1078,6 +1237,11 @@ func genC19Op(rt *rapid.T, m *c19Machine) c19Op {
 			bestAv = need
 		}
 		return c19Op{Op: "vote", By: best, Prop: p.ID, Amount: bestAv.String(), Note: "campaign"}
+	}
+	if m.wide && m.inited {
+		if op, ok := genC19WideBias(rt, m); ok {
+			return op
+		}
 	}
 	kind := rapid.IntRange(0, 99).Draw(rt, "kind")
 	if kind >= 36 && kind < 50 && len(m.props) == 0 && rapid.IntRange(0, 5).Draw(rt, "needprop") > 0 {
@@ -1248,7 +1412,7 @@ var c19WitnessKind = map[string]string{c19SelfMint: "supply", c19ResetLocks: "lo
 
 func TestC19(t *testing.T) {
 	c := hx.NewCollector("C19", "exploration",
-		"rapid sequences (<= 30 steps) over four genesis-funded accounts and one fresh account of $govern_token Init / Transfer (to another, to self, to the fresh account; amount 0, 1, small, exactly available, available+1, balance, balance+1, supply, > 64 bit, negative, malformed), $proposal Propose / Vote / Thaw, $timer_task Do at consecutive heights as State.GetTimerTx invokes it (runs CheckVoteResult / Trigger), direct external Lock / UnLock (must be refused) and tdpos-type Lock / UnLock through a $tdpos forwarder; executed by the real kernel contracts through the real contract manager over one in-memory state per sequence, a call commits its write set iff it succeeds. After every step all stored balance records are read back: sum of balances == TotalSupply == value fixed at Init; locked amounts change only for the account and by the amount of the lock/unlock the step executed (a transfer changes nobody's locks); an accepted transfer leaves the sender at or above each of its locked amounts; nothing negative. Non-trivial = a successful lock of a positive amount followed by a transfer from or to the still-locked account; distinct = hash of the operation trace",
+		"rapid sequences (<= 30 steps) over four genesis-funded accounts and one fresh account (one sequence in five: widened with two to four accounts whose NAME contains the key separator '_' of balanceOf_<account> / lock_<proposal>_<account> and that stand in prefix relation with another account of the universe - the contract account XC1111111111111111@my_chain next to XC1111111111111111@my, <address>_<suffix> next to <address>, empty suffix, nested <base>_<s>_<s2>, siblings; they start without tokens, are funded by transfers and then propose / vote / are released like any other account; labels universe-with-separator-names, lock-by-separator-name-ok, release-with-separator-name-locker[-while-prefix-account-locked]) of $govern_token Init / Transfer (to another, to self, to the fresh account; amount 0, 1, small, exactly available, available+1, balance, balance+1, supply, > 64 bit, negative, malformed), $proposal Propose / Vote / Thaw, $timer_task Do at consecutive heights as State.GetTimerTx invokes it (runs CheckVoteResult / Trigger), direct external Lock / UnLock (must be refused) and tdpos-type Lock / UnLock through a $tdpos forwarder; executed by the real kernel contracts through the real contract manager over one in-memory state per sequence, a call commits its write set iff it succeeds. After every step all stored balance records are read back: sum of balances == TotalSupply == value fixed at Init; locked amounts change only for the account and by the amount of the lock/unlock the step executed (a transfer changes nobody's locks); an accepted transfer leaves the sender at or above each of its locked amounts; nothing negative. Non-trivial = a successful lock of a positive amount followed by a transfer from or to the still-locked account; distinct = hash of the operation trace",
 		"a failed contract call leaves no trace (no transaction is formed from it)",
 		"tdpos lock type: the $tdpos forwarder issues the same $govern_token Lock/UnLock calls as bcs/consensus/tdpos/kernel_contract.go and never unlocks more than it locked for the account (the real tdpos methods read their tables from ledger snapshots of confirmed blocks and cannot run over the in-memory state)",
 		"$timer_task.Do is invoked once per height, in increasing order, like the miner / verifier do")
@@ -1278,12 +1442,13 @@ func TestC19(t *testing.T) {
 		}
 	}
 
-	c.Check(t, c19Sub, hx.N(20000, 300000), func(cs *hx.Case) {
+	c.Check(t, c19Sub, hx.N(24000, 360000), func(cs *hx.Case) { // one sequence in five has the widened universe
 		rt := cs.RT()
 		m, err := newC19Machine()
 		if err != nil {
 			rt.Fatalf("setup: %v", err)
 		}
+		genC19Universe(rt, m)
 		n := rapid.IntRange(1, c19MaxStep).Draw(rt, "steps")
 		for i := 0; i < n; i++ {
 			op := genC19Op(rt, m)
